@@ -228,6 +228,34 @@ CLAIMED = {
         "stable-directory listing cache ($XONSH_COMMANDS_CACHE_READ_DIR_ONCE: documented staleness, assumed empty), SubprocSpec.resolve_binary_loc beyond C15's clause, "
         "file-system changes DURING one lookup. Trusted: pyvc engine + models + z3.",
    design="§3 C08"),
+ "C02": dict(
+   category="proof",
+   text="The scope-stack bookkeeping of CtxAwareTransformer with `contexts` as a list of name sets (sets live by value in their list slot): ctxadd / ctxupdate bind "
+        "in the innermost scope and leave every other scope unchanged; ctxremove unbinds the name in the innermost scope that has it and nowhere else (loop "
+        "invariant over the reversed stack; an outer binding of the same name stays, as in Python); visit_Global adds the names to the module scope "
+        "contexts[1] only, at any nesting depth; visit_ClassDef / visit_FunctionDef give the name to the enclosing scope, open a fresh EMPTY scope before "
+        "parameters are bound / the body is visited, and close it again. Bounded stand-in (not proved): 12 binding forms x scope depths 0..2 (global: 1..3) x "
+        "probe positions + del / parameter / class-body / session-name cases through the real Execer.parse, decision on a probe line `X -l` against Python's "
+        "scoping rules.",
+   note="One genuine defect repaired (fix: 2827a8d: a walrus inside an expression statement was not recorded). Unverified: is_in_scope / the name gathering "
+        "helpers (gather_names, leftmostname), every other visitor (Assign, Import, For, With, Try, NamedExpr - bounded only), the with-body hypothesis on "
+        "generic_visit (stack depth preserved), ctxupdate's generator argument in visit_FunctionDef (abstracted: assumed to touch the innermost scope only, "
+        "which is ctxupdate's own verified contract), the three-phase parse and 'decision before anything runs' (Execer.parse / compile / exec), "
+        "_SubprocChainRaiseWrapper. Trusted: pyvc engine + set-slot model + z3/cvc5.",
+   design="§3 C02"),
+ "C03": dict(
+   category="proof",
+   text="tools.get_logical_line for ALL sources and line indices: the logical line containing line i starts at the FIRST line of the maximal chain of continuation "
+        "links ending at i (a link = previous line ends with a continuation, or the text before ends inside an open triple-quoted string) - loop invariant for "
+        "the backward walk with a termination variant, for chains of any length; it spans >= 1 lines and stays inside the source (second loop, with "
+        "variant). Bounded stand-ins (not proved): 11 command lines x 1..4 (thorough 5) physical lines x 7 statement positions (top level, after `;`, if / for-in-def "
+        "/ try / with / while-in-if-in-def) x {no chain, &&, and, ||}: the bare source and the hand-wrapped ![...] source compile to the same program through the "
+        "real Execer; C02's probe programs (names bound only in inner scopes do not stop the wrap).",
+   note="KNOWN FINDING (recorded): a chain segment that is also valid Python (`ls -l /tmp && ...`) is wrapped without in_boolop=True. Unverified: _parse_ctx_free's "
+        "retry loop and its termination for ALL input strings (the property's second sentence - only exercised by the bounded check), subproc_toks / find_next_break / "
+        "_abs_lexpos / balanced_parens, replace_logical_line, strip_continuation_comments, _have_open_triple_quotes (a ghost predicate here), "
+        "CtxAwareTransformer.try_subproc_toks / _column_window, the lexer's whitespace synthesis. Trusted: pyvc engine + models + z3.",
+   design="§3 C03"),
 }
 NA = {
  "C01": "equivalence of two grammars (PLY LALR tables vs CPython's PEG parser) is not a function contract; no contract within reach can express or decide it (DESIGN §3 C01)",
